@@ -226,6 +226,18 @@ class Run:
                 ctx.report('name-request', 'exporter could not acquire its well-known name: %r' % out.results, w, case)
                 return False
             dest = WELL_KNOWN
+        if sc.idx % 6 == 3:
+            # the exporter first declared one member differently, was introspected in that state, and then re-declared
+            # the member (same name) as the scenario has it: later introspection must describe the current declaration
+            ifc = next(i_ for i_ in obj.getInterfaces() if i_.name == sc.iface_name)
+            m0 = sorted(sc.methods)[0]
+            real = sc.methods[m0]
+            ifc.addMethod(I.Method(m0, arguments=real['in'] + 'i', returns='s' if real['out'] != 's' else 'u'))
+            clientfix.Outcome(callers[0].conn.callRemote('/exp', 'Introspect', destination=dest,
+                                                         interface='org.freedesktop.DBus.Introspectable'))
+            busnet.pump(net)
+            ifc.addMethod(I.Method(m0, arguments=real['in'], returns=real['out']))
+            ctx.count('member_redeclared_after_introspection')
         if sc.idx % 4 == 1:
             # another class on the exporting client implements the same interface members, asking for the caller's name
             # (dbusCaller), and is called first: what the library learns about that implementation must not be applied
